@@ -154,6 +154,39 @@ func genC15(rng *rand.Rand, tier string) *sim.Plan {
 			break
 		}
 	}
+	if chance(rng, 0.25) {
+		// resume under pressure: a session whose small queue is full of in-flight entries that have outlived the
+		// in-flight expiry is resumed while new messages are delivered into it (Add sacrifices the expired entries
+		// and gives their packet ids back while the resuming connection replays the very same entries)
+		p.Broker.MaxQueued = pick(rng, []int{2, 3, 5})
+		if p.Broker.MaxInflight > p.Broker.MaxQueued {
+			p.Broker.MaxInflight = p.Broker.MaxQueued
+		}
+		p.Broker.InflightExpiryS = sim.Int(1)
+		rs, rp := len(p.Clients), len(p.Clients)+1
+		p.Clients = append(p.Clients, sim.ClientSpec{ID: "rs", Ver: pick(rng, []byte{4, 5})}, sim.ClientSpec{ID: "rp", Ver: pick(rng, []byte{4, 5})})
+		var A, B sim.Phase
+		A.TimeoutS, B.TimeoutS = 60, 60
+		var exp *uint32
+		if p.Clients[rs].Ver == 5 {
+			exp = sim.U32(60)
+		}
+		A.Ops = append(A.Ops, sim.Op{K: "connect", C: rs, Clean: false, Ack: "never", ExpiryS: exp},
+			sim.Op{K: "subscribe", C: rs, Subs: []mqttc.Sub{{Filter: "t/#", QoS: 1}}},
+			sim.Op{K: "connect", C: rp, Clean: true, Delay: sim.Us(5000)})
+		for k := 0; k < p.Broker.MaxQueued+rng.IntN(4); k++ {
+			msg++
+			A.Ops = append(A.Ops, sim.Op{K: "publish", C: rp, Topic: "t/a", QoS: 1, Payload: fmt.Sprintf("c%d", msg)})
+		}
+		A.Ops = append(A.Ops, sim.Op{K: "cut", C: rs, Mode: pick(rng, []string{"rst", "fin"}), Delay: sim.Us(60000)})
+		A.Advance = sim.Sec(pick(rng, []int{2, 3}))
+		B.Ops = append(B.Ops, sim.Op{K: "connect", C: rs, Clean: false, Ack: pick(rng, []string{"", "never", "late"}), AckDelay: sim.Us(200), ExpiryS: exp, Delay: sim.Us(rng.IntN(1500))})
+		for k := 0; k < 3+rng.IntN(6); k++ {
+			msg++
+			B.Ops = append(B.Ops, sim.Op{K: "publish", C: rp, Topic: "t/a", QoS: byte(1 + rng.IntN(2)), Payload: fmt.Sprintf("c%d", msg), NoWait: true, Delay: sim.Us(rng.IntN(400))})
+		}
+		p.Phases = append([]sim.Phase{A, B}, p.Phases...)
+	}
 	if maybeRedis(rng, p, 0.3) && chance(rng, 0.7) {
 		// storage faults: a few of the broker's redis commands fail (error reply) or lose their connection; whatever
 		// the broker makes of it, it must not dead-lock, panic, stop answering, or hang in Stop
